@@ -36,8 +36,28 @@
 #include "identifier.c"
 #include "symbolic.c"
 #include "equality.c"
+/* C16 (unity build): the scratch allocations of uniqueness.c and the arena requests of the
+ * collection builder can be failed on demand; inactive unless a B line or a d<c><m> op sets them */
+static int vf_u_fail_malloc = 0, vf_u_fail_calloc = 0;
+static void* vf_u_malloc(size_t n) { return vf_u_fail_malloc ? NULL : malloc(n); }
+static void* vf_u_calloc(size_t a, size_t b) { return vf_u_fail_calloc ? NULL : calloc(a, b); }
+#define malloc vf_u_malloc
+#define calloc vf_u_calloc
 #include "uniqueness.c"
+#undef malloc
+#undef calloc
+static const char* vf_u_sched = NULL; /* '0' = fail, '1' = succeed; exhausted = succeed */
+static void* vf_u_arena_alloc(edn_arena_t* a, size_t n) {
+    if (vf_u_sched && *vf_u_sched) {
+        char c = *vf_u_sched++;
+        if (c == '0')
+            return NULL;
+    }
+    return edn_arena_alloc(a, n);
+}
+#define edn_arena_alloc vf_u_arena_alloc
 #include "collection.c"
+#undef edn_arena_alloc
 #include "tagged.c"
 #include "discard.c"
 #include "reader.c"
@@ -1190,7 +1210,13 @@ static void cmd_script(char* args) {
                 dump_ranges = save_ranges;
                 free(b1);
                 free(b2);
-            } else if (strcmp(op, "d") == 0) {
+            } else if (strcmp(op, "d") == 0 || (op[0] == 'd' && strlen(op) == 3)) {
+#ifdef VERIF_UNITY
+                if (op[1]) {
+                    vf_u_fail_calloc = (op[1] == '0');
+                    vf_u_fail_malloc = (op[2] == '0');
+                }
+#endif
                 size_t n = 0;
                 if (p) {
                     switch (edn_type(p)) {
@@ -1208,6 +1234,9 @@ static void cmd_script(char* args) {
                 for (size_t i = 0; i < n; i++)
                     el[i] = child_at(p, i);
                 printf("%d", edn_has_duplicates(el, n) ? 1 : 0);
+#ifdef VERIF_UNITY
+                vf_u_fail_calloc = vf_u_fail_malloc = 0;
+#endif
                 free(el);
             } else if (strcmp(op, "t") == 0) {
                 dump_ranges = 0;
@@ -1223,6 +1252,49 @@ static void cmd_script(char* args) {
     fflush(stdout);
     free_regs();
 }
+
+/* ------------------------------------------------------------------ */
+/* B : the collection builder under an allocation schedule (unity)      */
+/* ------------------------------------------------------------------ */
+#ifdef VERIF_UNITY
+/* B <initcap> <n> <schedule of 0/1 or -> */
+static void cmd_builder(char* args) {
+    char* ic = strtok(args, " \n");
+    char* ns = strtok(NULL, " \n");
+    char* sch = strtok(NULL, " \n");
+    size_t initcap = ic ? (size_t) atol(ic) : 8, n = ns ? (size_t) atol(ns) : 0;
+    edn_arena_t* arena = edn_arena_create();
+    edn_collection_builder_t b;
+    vf_u_sched = (sch && strcmp(sch, "-") != 0) ? sch : NULL;
+    edn_collection_builder_init(&b, arena, initcap);
+    int failed = 0;
+    for (size_t i = 0; i < n; i++) {
+        if (!edn_collection_builder_add(&b, (edn_value_t*) (uintptr_t) (0x1000 + 8 * i))) {
+            printf("addfail %zu\n", i);
+            failed = 1;
+            break;
+        }
+    }
+    if (!failed) {
+        size_t count = 0;
+        edn_value_t** arr = edn_collection_builder_finish(&b, &count);
+        if (arr == NULL) {
+            printf("null count=%zu\n", count);
+        } else if ((void*) arr >= (void*) &b && (void*) arr < (void*) (&b + 1)) {
+            printf("STACK count=%zu\n", count);
+        } else {
+            int ok = 1;
+            for (size_t i = 0; i < count; i++)
+                if (arr[i] != (edn_value_t*) (uintptr_t) (0x1000 + 8 * i))
+                    ok = 0;
+            printf("heap count=%zu %s\n", count, ok ? "ok" : "CORRUPT");
+        }
+    }
+    vf_u_sched = NULL;
+    fflush(stdout);
+    edn_arena_destroy(arena);
+}
+#endif
 
 /* ------------------------------------------------------------------ */
 /* F : fault schedules (wrap build)                                     */
@@ -1319,6 +1391,11 @@ int main(int argc, char** argv) {
             case 'A':
                 cmd_arena(args);
                 break;
+#ifdef VERIF_UNITY
+            case 'B':
+                cmd_builder(args);
+                break;
+#endif
             case 'G':
                 cmd_registry(args);
                 break;
